@@ -1,8 +1,8 @@
 // C19 driver: instrument name/unit validation, view selection and shaping, scope configurators,
 // provider registries (identity of returned tracers/meters/loggers).  Public SDK API only.
 //
-//   NAME x<name>                       ->  N <0/1>
-//   UNIT x<unit>                       ->  U <0/1>
+//   NAME x<name>                       ->  N <regex variant 0/1> <hand-written variant 0/1, 2 = not called (empty name)>
+//   UNIT x<unit>                       ->  U <regex variant 0/1> <hand-written variant 0/1>
 //   PRED P|E x<pattern> x<string>      ->  P <0/1>        (PredicateFactory: kPattern / kExact)
 //   MET <rules> | <views> | <keys> | <ops>                (one MeterProvider, one Collect)
 //   TR  <rules> | <ops>                                   (one TracerProvider)
@@ -56,6 +56,13 @@ using verif::ExactBuf;
 using verif::Out;
 using verif::Tok;
 typedef std::vector<Tok> Toks;
+
+namespace verif
+{
+// harness/c19_noregex.cc: the #else branches of instrument_metadata_validator.cc
+bool noregex_validate_name(opentelemetry::nostd::string_view s);
+bool noregex_validate_unit(opentelemetry::nostd::string_view s);
+}  // namespace verif
 
 static nostd::string_view sv(const ExactBuf &b) { return nostd::string_view(b.p, b.n); }
 
@@ -430,12 +437,15 @@ int main(int argc, char **argv)
       msdk::InstrumentMetaDataValidator v;
       ExactBuf b(t[1].s);
       o.tag("N").boolean(v.ValidateName(sv(b)));
+      // the hand-written variant reads name[0] before looking at the size: not called on an empty view
+      if (t[1].s.empty()) o.num(2); else o.boolean(verif::noregex_validate_name(sv(b)));
     }
     else if (t[0].is_tag("UNIT") && t.size() == 2 && t[1].kind == Tok::BYTES)
     {
       msdk::InstrumentMetaDataValidator v;
       ExactBuf b(t[1].s);
       o.tag("U").boolean(v.ValidateUnit(sv(b)));
+      o.boolean(verif::noregex_validate_unit(sv(b)));
     }
     else if (t[0].is_tag("PRED") && t.size() == 4 && t[2].kind == Tok::BYTES && t[3].kind == Tok::BYTES)
     {
